@@ -179,12 +179,21 @@ def light(v, depth=0):
     return type(v).__name__
 
 
+def _tree_quick(v):
+    """Per-line digest of a shared statement tree: what to_tree() shows plus alias / parentheses (the full digest with the hidden
+    node attributes is taken between ops only: at every line it would cost more than the run it directs)."""
+    try:
+        return 'AST(%s|%s|%s)' % (v.to_tree(), _dg(getattr(v, 'alias', None), 1), getattr(v, 'parentheses', None))
+    except Exception:
+        return type(v).__name__
+
+
 def fingerprint_light(rootlist):
     out = []
     for path, get in rootlist:
         try:
             # a shared statement tree is small and its edits are deep inside (a column of a CREATE TABLE): full digest
-            out.append(_dg(get()) if path.startswith(('tree[', 'tpl[')) else light(get()))
+            out.append(_tree_quick(get()) if path.startswith('tree[') else light(get()))
         except Exception as e:  # noqa
             out.append('ERR')
     return out
